@@ -735,6 +735,24 @@ def rule_P15(ctx):
             if extra:
                 bad = extra
                 break
+        # ... nor is a single transition skipped because of the workflow status (a `continue`
+        # in the body that depends on it): the status decides what is *offered*, not what is
+        # evaluated, published and staged
+        base_ = set(fg.atoms(lp.body[0])) if lp.body else set()
+        for c_ in ast.walk(lp):
+            if isinstance(c_, ast.Continue):
+                own_ = [a for a in fg.atoms(c_) if a not in base_]
+                hot = [a for a in own_ if "get_workflow_status" in str(a[1])
+                       or "workflow_state.status" in str(a[1]) or any(
+                           "get_workflow_status" in unparse(d.value) for d in ast.walk(f.node)
+                           if isinstance(d, ast.Assign) and str(a[1]).isidentifier() and any(
+                               isinstance(t, ast.Name) and t.id == a[1] for t in d.targets))]
+                if hot:
+                    res.violated(inst + ("skip",), _f(
+                        "P15", f, c_, "transition skipped on the workflow status",
+                        "a transition of a completed task is skipped when %s: its publishes and "
+                        "the staged successor a later rerun continues from are lost"
+                        % ", ".join(fmt_atoms(hot))))
         if bad is None:
             res.holds(inst)
         else:
